@@ -180,6 +180,12 @@ def inv3(m, name=None):
         CTX.hyp.append(d.t != 0); CTX.pre.append(d.t != 0)
     return adj3(m) / d
 
+class _F64:
+    """stand-in for np.float64 inside patched modules: usable both as a constructor and as a dtype marker"""
+    def __new__(cls, x=0.0): return x if _has_sym(x) else _np.float64(x)
+def _isfloat(dtype): return dtype in (float, _np.float64, "d", None, _np.float32, _F64)
+def _np_dtype(dtype): return _np.float64 if dtype is _F64 else dtype
+
 class SymArray(_np.ndarray):
     """object array whose .astype(int) keeps the (integer-valued) symbolic elements"""
     def astype(self, dtype, *a, **k):
@@ -210,16 +216,20 @@ class NPProxy:
     def zeros(self, shape, dtype=None, **k):
         if self.INTS_AS_OBJECTS and dtype in (int, _np.int32, _np.int64, _np.intp):
             a = _np.empty(shape, dtype=object); a[...] = 0; return a
-        if dtype in (float, _np.float64, "d", None, _np.float32):
+        if _isfloat(dtype):
             a = _np.empty(shape, dtype=object); a[...] = 0.0; return a
         return _np.zeros(shape, dtype, **k)
     def empty(self, shape, dtype=None, **k): return self.zeros(shape, dtype)
     def ones(self, shape, dtype=None, **k):
         if self.INTS_AS_OBJECTS and dtype in (int, _np.int32, _np.int64, _np.intp):
             a = _np.empty(shape, dtype=object); a[...] = 1; return a
-        if dtype in (float, _np.float64, "d", None):
+        if _isfloat(dtype):
             a = _np.empty(shape, dtype=object); a[...] = 1.0; return a
         return _np.ones(shape, dtype, **k)
+    def full(self, shape, fill_value, dtype=None, **k):
+        if _isfloat(dtype) and not isinstance(fill_value, (bool, _np.bool_)):
+            a = _np.empty(shape, dtype=object); a[...] = fill_value; return a
+        return _np.full(shape, fill_value, dtype, **k)
     def zeros_like(self, a, dtype=None):
         a = _np.asarray(a)
         if a.dtype == object or dtype is None and a.dtype.kind == "f": return self.zeros(a.shape)
@@ -234,14 +244,14 @@ class NPProxy:
         if _has_sym(x):
             k.pop("copy", None)
             return _np.array(x, dtype=object)
-        return _np.array(x, dtype=dtype, **k)
+        return _np.array(x, dtype=_np_dtype(dtype), **k)
     def asarray(self, x, dtype=None, **k):
         if isinstance(x, _np.ndarray) and x.dtype == object: return x
         if _has_sym(x): return _np.array(x, dtype=object)
         return _np.asarray(x, dtype=dtype, **k)
     def ascontiguousarray(self, x, dtype=None): return self.asarray(x, dtype)
     def asanyarray(self, x, dtype=None): return self.asarray(x, dtype)
-    def float64(self, x): return x if _has_sym(x) else _np.float64(x)
+    float64 = _F64
     def where(self, c, a=None, b=None):
         c = _np.asarray(c)
         if c.dtype != object: return _np.where(c, a, b) if a is not None else _np.where(c)
